@@ -16,7 +16,7 @@ from .. import events as E
 from ._h_A import (FactReach, Facts, nodes_of_stmts, nodes_for, kwarg, is_const, stmts_in,
                    attr_sites, obj_sites, inliner, expander, bind_call, call_arg, real_loops,
                    Owners, followed, returns_of, value_at, deref_at, derefs_at, reaching_defs,
-                   innermost_loop,
+                   innermost_loop, need, opaque_parts, opaque_tests, undissolved,
                    loop_breaks)
 from .c06 import Scan, LoopRoles, work_item, STEP, LOOP, ONE
 
@@ -99,7 +99,9 @@ def r1_lock_pairing(run, w, sc):
     raw3, _ = deref_at(fn, cfg, du, dn.id, dwi["locks"])
     elems = [lock_value(e, dn.id) for e in raw3.elts] if isinstance(raw3, (ast.List, ast.Tuple)) \
         else None
-    ok = elems is not None and lv_ in elems
+    need(elems is not None, "%s: cannot follow the locks of the dependency's work item (`%s`)"
+         % (LOOP, short(dwi["locks"])))
+    ok = lv_ in elems
     if ok and isinstance(a, ast.Name):
       # same value: the lock variable is not rebound between the push and the add
       reb = du.rebinders(a.id)
@@ -122,6 +124,8 @@ def r1_lock_pairing(run, w, sc):
     # identity of the lock: (popped node, e.requiring_row_id)
     lk = value_at(fn, cfg, du, an.id, a)
     n_node = ex.norm(ast.Name(id=v_node, ctx=ast.Load()))
+    need(isinstance(lk, ast.Tuple) or not opaque_parts(w, fn.fi, lk),
+         "%s: cannot follow what the lock is (`%s`)" % (LOOP, short(lk)))
     ok = isinstance(lk, ast.Tuple) and len(lk.elts) == 2 and \
         text(lk.elts[0]) in (n_node, "%s.requiring_node" % ev) and \
         text(lk.elts[1]) == "%s.requiring_row_id" % ev
@@ -139,6 +143,10 @@ def r1_lock_pairing(run, w, sc):
     raise AnalysisError("%s: release loop `for lock in locks` not found" % LOOP)
   rl = rel_loops[0]
   rl_nodes = nodes_for(cfg, rl)
+  if not clears:
+    und = undissolved(w, fn, cfg, within=hbody)
+    need(not und, "%s: the OrderError handler calls `%s`, which cannot be followed"
+         % (LOOP, short(und[0]) if und else ""))
   ok = lr.is_var(cwi["locks"], v_locks) and bool(clears) and \
       not (cfg.reach(set(hn), removed=clears) & rl_nodes) and \
       all(cfg.dominated_by(c, {cn.id}) for c in clears)
@@ -168,6 +176,13 @@ def r1_lock_pairing(run, w, sc):
   fr = Facts(cfg, {held}, ex=ex)
   seen = fr.run([(m, {}) for m in first], stop=rels | rl_nodes)
   bad = [f for hd in rl_nodes for f in seen.get(hd, []) if f.get(held) is not False]
+  if not rels or bad:
+    und = undissolved(w, fn, cfg, within=rb)
+    need(not und, "%s: the release loop calls `%s`, which cannot be followed"
+         % (LOOP, short(und[0]) if und else ""))
+    ot = opaque_tests(w, fn, cfg, within=rb)
+    need(not ot, "%s: the release loop tests `%s`, which cannot be followed"
+         % (LOOP, short(ot[0].stmt.test) if ot else ""))
   ok = bool(rels) and not bad and not loop_breaks(rl)
   run.ob(R1, fn.qualname, "self.%s.discard(<lock>) for every lock still held" % LOCKS,
          "a completed work item's locks leave the set (a lock left behind would report later, "
@@ -197,6 +212,10 @@ def r1_lock_pairing(run, w, sc):
     for c in calls_in(n.exprs):
       if endswith(pre.name(c), "self.%s.clear" % LOCKS):
         resets.add(n.id)
+  if not resets:
+    und = undissolved(w, pre, pcfg)
+    need(not und, "engine.Engine._pre_update: calls `%s`, which cannot be followed"
+         % (short(und[0]) if und else ""))
   ok = bool(resets) and pcfg.postdominated_by(pcfg.entry.id, resets)
   run.ob(R1, pre.qualname, "self.%s = set()" % LOCKS, "locks left over from an aborted frame "
          "cannot make the next recalculation report cycles that do not exist", ok, fi=pre.fi)
@@ -305,6 +324,12 @@ def r2_cycle_flag(run, w, sc):
   circ = [n for n in seen if cfg.nodes[n].kind == "raise_stmt" and
           endswith(raised_type(n), "CircularRefError")]
   ok = not hit and bool(circ)
+  if not ok:
+    und = undissolved(w, one, cfg, within=set(seen))
+    need(not und, "%s: calls `%s`, which cannot be followed, before the user code"
+         % (ONE, short(und[0]) if und else ""))
+    ot = opaque_tests(w, one, cfg)
+    need(not ot, "%s: tests `%s`, which cannot be followed" % (ONE, short(ot[0].stmt.test) if ot else ""))
   run.ob(R2, one.qualname, "if cycle: raise depend.CircularRefError(...) before col.method(...)",
          "a cell on a cycle is never evaluated (its formula would read itself); it fails with "
          "CircularRefError instead", ok, fi=one.fi,
@@ -339,6 +364,8 @@ def r2_cycle_flag(run, w, sc):
         ri = w.repo.funcs.get("objtypes.RaisedException.__init__")
         err = call_arg(raw, ri, ri.params()[1]) if ri is not None else \
             (raw.args[0] if raw.args else None)
+      need(err is not None or not opaque_parts(w, one.fi, expander(one).expand(raw)),
+           "%s: cannot follow what the error branch returns (`%s`)" % (ONE, short(raw)))
       ok = ok and err is not None and \
           du.flows_from(lambda x: isinstance(x, ast.Call) and dotted(x.func) == "sys.exc_info", err)
     run.ob(R2, one.qualname, "except: ... return objtypes.RaisedException(<the caught error>, ...)",
@@ -377,6 +404,7 @@ def r3_unwrapped(run, w):
       if isinstance(t, ast.Call) and dotted(t.func) == "isinstance" and len(t.args) == 2 and \
           endswith(dotted(t.args[1]), "CircularRefError"):
         atoms[text(t)] = t.args[0]
+  need(atoms, "get_cell_value: no test telling a stored CircularRefError apart was found")
   ok_shape = len(atoms) == 1
   run.ob(R3, fn.qualname, "isinstance(<stored>.error, depend.CircularRefError) branch exists",
          "stored circular-reference errors are told apart from other stored errors", ok_shape,
@@ -404,6 +432,8 @@ def r3_unwrapped(run, w):
       ds = [ex.expand(d) for d in E.local_defs(fn.node, base.id)]
     elif base is not None:
       ds = [base]
+    need(ds or base is None, "get_cell_value: cannot follow where the stored value examined "
+         "comes from")
     ok = any(isinstance(d, ast.Call) and isinstance(d.func, ast.Attribute) and
              d.func.attr == "raw_get" and len(d.args) + len(d.keywords) == 1 and
              text((d.args + [k.value for k in d.keywords])[0]) == fn.fi.params()[1] for d in ds)
@@ -459,6 +489,9 @@ def r4_edge_before_read(run, w):
   seen = fr.run([(cfg.entry.id, {isf: True})], stop=adds)
   bad = [f for r in rec for f in seen.get(r, []) if not any(f.get(k) is True for k in known)]
   ok = not bad
+  if bad:
+    ot = opaque_tests(w, fn, cfg)
+    need(not ot, "_use_node: tests `%s`, which cannot be followed" % (short(ot[0].stmt.test) if ot else ""))
   run.ob(R4, fn.qualname, "dep_graph.add_edge(...) precedes self._recompute(node, row_ids)",
          "a read aborted by OrderError -- or refused for good by the cycle detector -- has already "
          "left its dependency edge, so the reading cell is invalidated when the node changes", ok,
